@@ -302,7 +302,7 @@ def run_case(es, rec):
             if not cands:
                 continue
             cv = max(cands, key=lambda z: z.sample_num)
-            keep, cv.sample_num = cv.sample_num, None
+            keep, cv.sample_num = cv.sample_num, rng.choice((None, float("nan")))   # (NaN: "not numbered" in a numeric column)
             rec.count("samples_with_an_unnumbered_record_probed")
             try:
                 with np.errstate(all="ignore"):
